@@ -25,27 +25,28 @@ Variable set : T -> N -> fatv -> res T.
 Variable val : T -> N -> fatv.
 Variable okc : N -> Prop.
 Variable okv : fatv -> Prop.
-Hypothesis get_val : forall t c, okc c -> get t c = Ok (val t c).
-Hypothesis set_ok : forall t c v, okc c -> okv v ->
-  exists t', set t c v = Ok t' /\ val t' c = v /\ forall c', c' <> c -> val t' c' = val t c'.
+Variable inv : T -> Prop.
+Hypothesis get_val : forall t c, inv t -> okc c -> get t c = Ok (val t c).
+Hypothesis set_ok : forall t c v, inv t -> okc c -> okv v ->
+  exists t', set t c v = Ok t' /\ inv t' /\ val t' c = v /\ forall c', c' <> c -> okc c' -> val t' c' = val t c'.
 Hypothesis okv_free : okv Free.
 Hypothesis okv_eoc : okv Eoc.
 
 Theorem C20_alloc_wraps : forall t hint total e,
-  hint_ok hint -> (forall x, 2 <= x < total + 2 -> okc x) ->
+  inv t -> hint_ok hint -> (forall x, 2 <= x < total + 2 -> okc x) ->
   alloc_cluster T get set t None hint total = Err e ->
   e = ENotEnoughSpace /\ forall x, 2 <= x < total + 2 -> val t x <> Free.
 Proof.
-  intros t hint total e Hh Hokc. exact (alloc_err T get set val okc okv get_val set_ok okv_eoc t None hint total e Hh Hokc I).
+  intros t hint total e Hi Hh Hokc. exact (alloc_err T get set val okc okv inv get_val set_ok okv_eoc t None hint total e Hi Hh Hokc I).
 Qed.
 
 Theorem C20_alloc_in_range : forall t hint total t' c,
-  hint_ok hint -> (forall x, 2 <= x < total + 2 -> okc x) ->
+  inv t -> hint_ok hint -> (forall x, 2 <= x < total + 2 -> okc x) ->
   alloc_cluster T get set t None hint total = Ok (t', c) ->
   2 <= c < total + 2 /\ val t c = Free.
 Proof.
-  intros t hint total t' c Hh Hokc Ha.
-  destruct (alloc_ok T get set val okc okv get_val set_ok okv_eoc t None hint total t' c Hh Hokc I Ha) as (H1 & H2 & _).
+  intros t hint total t' c Hi Hh Hokc Ha.
+  destruct (alloc_ok T get set val okc okv inv get_val set_ok okv_eoc t None hint total t' c Hi Hh Hokc I Ha) as (_ & H1 & H2 & _).
   split; assumption.
 Qed.
 End Alloc.
